@@ -46,11 +46,16 @@ def sparseLoop (k n m : Nat) (planted : List (List Int)) : Nat â†’ List Clause â
       else sparseLoop k n m planted fuel (acc ++ [cls])
     else pure acc
 
-/-- the dense sampling at the end of `sample_clauses` -/
+/-- the dense sampling at the end of `sample_clauses`.  `itertools.combinations(range(1, n+1), k)`
+builds `tuple(range(1, n+1))` first: beyond `sys.maxsize` elements that is an OverflowError
+("Python int too large to convert to C ssize_t"), raised by `list(all_clauses(...))` before
+anything is enumerated (for every `k`, `k = 0` included). -/
 def denseClauses (k n m : Nat) (planted : List (List Int)) : RandM (List Clause) :=
-  let fullset := allClauses k n planted
-  if fullset.length < m then RandM.raise .valueError
-  else sampleFrom fullset m []
+  if sysMaxsize < n then RandM.raise .overflowError
+  else
+    let fullset := allClauses k n planted
+    if fullset.length < m then RandM.raise .valueError
+    else sampleFrom fullset m []
 
 /-- the retry budget `10 * m` of `sample_clauses` -/
 def retryBudget (m : Nat) : Nat := 10 * m
